@@ -15,8 +15,9 @@ STD_TRUSTED = [
 ]
 
 
-class Hang(Exception):
-    pass
+class Hang(KeyboardInterrupt):
+    """raised by the per-case watchdog.  A KeyboardInterrupt subclass on purpose: `except Exception` handlers in
+    the code under test do not swallow it and asyncio re-raises it out of Task steps and `run_forever`."""
 
 
 def _alarm(signum, frame):
@@ -57,10 +58,24 @@ def load_findings(pid):
             if e.get("property") == pid and e.get("kind") == "known"}
 
 
+_HANGS = [0]     # confirmed hangs seen by this process
+
+
 def _impl_worker(args):
     modname, case = args
     mod = importlib.import_module(modname)
-    return _safe_impl(mod, case)
+    return _counted_impl(mod, case)
+
+
+def _counted_impl(mod, case):
+    """_safe_impl, but once the implementation has hung for real twice in this process the remaining cases are
+    skipped (each confirmation costs minutes; two are evidence enough and they are reported)."""
+    if _HANGS[0] >= 2:
+        return {"harness_exc": "skipped after confirmed hangs"}
+    r = _safe_impl(mod, case)
+    if isinstance(r, dict) and r.get("harness_exc") == "Hang":
+        _HANGS[0] += 1
+    return r
 
 
 def _safe_impl(mod, case):
@@ -72,7 +87,7 @@ def _safe_impl(mod, case):
     # A wall-clock watchdog can fire on a starved machine; a real hang hangs again.  Retry once with a
     # much longer limit before calling it a hang.
     try:
-        return call_limited(mod.run_impl, max(120.0, 5 * limit), case)
+        return call_limited(mod.run_impl, max(90.0, 2 * limit), case)
     except Hang:
         return {"harness_exc": "Hang"}
     except BaseException as e:  # run_impl is expected to canonicalise; this is a harness-level escape
@@ -149,7 +164,7 @@ class Run:
         if getattr(mod, "PARALLEL", False) and len(cases) > 200:
             workers = min(int(os.environ.get("VERIF_WORKERS", "12")), os.cpu_count() or 1)
         if workers <= 1:
-            return [_safe_impl(mod, c) for c in cases]
+            return [_counted_impl(mod, c) for c in cases]
         import multiprocessing as mp
         ctx = mp.get_context("fork")
         with ctx.Pool(workers) as pool:
@@ -161,6 +176,9 @@ class Run:
         impls = self.impl_all(cases)
         lines, spans = [], []
         for c, r in zip(cases, impls):
+            if isinstance(r, dict) and "harness_exc" in r:
+                spans.append((len(lines), 0, 0))
+                continue
             ml = list(mod.model_requests(c, r)) if do_model else []
             sl = list(mod.spec_requests(c, r)) if hasattr(mod, "spec_requests") else []
             spans.append((len(lines), len(ml), len(sl)))
@@ -170,7 +188,7 @@ class Run:
         for c, r, (o, nm, ns) in zip(cases, impls, spans):
             mism = None
             if isinstance(r, dict) and "harness_exc" in r:
-                viol = "implementation escaped the harness: %s" % r["harness_exc"]
+                viol = None if r["harness_exc"].startswith("skipped") else "implementation escaped the harness: %s" % r["harness_exc"]
                 out.append((c, r, None, viol))
                 continue
             if do_model:
@@ -195,13 +213,14 @@ class Run:
         if sh is None:
             return case
         budget = 150
+        t_end = time.time() + float(os.environ.get("VERIF_SHRINK_S", "45"))
         cur = case
         progress = True
-        while progress and budget > 0:
+        while progress and budget > 0 and time.time() < t_end:
             progress = False
             for cand in sh(cur):
                 budget -= 1
-                if budget <= 0:
+                if budget <= 0 or time.time() > t_end:
                     break
                 try:
                     if pred(cand):
